@@ -23,7 +23,7 @@ type C04Params struct {
 
 func init() {
 	Register(&Family{Property: "C04", Name: "crash-commit", Gen: func(r *rand.Rand, tier string) interface{} {
-		mw := GenMW(r, MWGenOpts{MaxClients: 2, MaxStmts: 7, MaxKeys: 6, MaxCols: 2, Txns: true, Advance: true})
+		mw := GenMW(r, MWGenOpts{MaxClients: 2, MaxStmts: 7, MaxKeys: 6, MaxCols: 2, Txns: true, Advance: true, Skew: true})
 		mw.EPN = []int{2, 2, 3, 4, 0}[r.IntN(5)]
 		mw.Inter = 0
 		p := &C04Params{MW: *mw}
